@@ -557,3 +557,49 @@ func eachInstrOf(fs []*ssa.Function, fn func(ins ssa.Instruction)) {
 		eachInstr(f, fn)
 	}
 }
+
+// passThrough: v is the result of a call of a helper or closure of the program that hands back one of its parameters
+// on every return (`encoded := func(b []byte, err error) []byte { if err != nil { panic(err) }; return b }`): the
+// argument passed for that parameter; any other value is returned unchanged.
+func (p *Prog) passThrough(v ssa.Value) ssa.Value {
+	for hops := 0; hops < 3; hops++ {
+		call, ok := v.(*ssa.Call)
+		if !ok || call.Call.IsInvoke() {
+			return v
+		}
+		g := call.Call.StaticCallee()
+		if g == nil || len(g.Blocks) == 0 || !p.InModule(g) || g.Signature.Results().Len() != 1 {
+			return v
+		}
+		pi, n := -1, 0
+		for _, b := range g.Blocks {
+			if len(b.Instrs) == 0 || b == g.Recover {
+				continue
+			}
+			ret, ok := b.Instrs[len(b.Instrs)-1].(*ssa.Return)
+			if !ok {
+				continue
+			}
+			n++
+			pr, isParam := cellValue(retOperand(ret, 0)).(*ssa.Parameter)
+			if !isParam {
+				return v
+			}
+			k := -1
+			for i, q := range g.Params {
+				if q == pr {
+					k = i
+				}
+			}
+			if k < 0 || (pi >= 0 && pi != k) {
+				return v
+			}
+			pi = k
+		}
+		if n == 0 || pi < 0 || pi >= len(call.Call.Args) {
+			return v
+		}
+		v = call.Call.Args[pi]
+	}
+	return v
+}
